@@ -299,3 +299,109 @@ func Verif_C14_VDefrag(cfg int) { vDefrag(14, cfg) }
 func Verif_C08_VDefrag(cfg int) { vDefrag(8, cfg) }
 func Verif_C04_VDefrag(cfg int) { vDefrag(4, cfg) }
 func Verif_C15_VDefrag(cfg int) { vDefrag(15, cfg) }
+
+// ---- C15 (vam layer): a DefragmentationContext reused for a second run behaves like a fresh one -----------------
+
+type runSummary struct {
+	moves []int // per pass: number of proposed moves, then for each move size and destination offset
+	stats defrag.DefragmentationStats
+	ok    bool
+}
+
+// runAll drives a complete run (every move copied) and records what was proposed.
+func (w *vWorld) runAll(ctx *DefragmentationContext, pool *Pool, flags DefragmentationFlags) runSummary {
+	var s runSummary
+	var err error
+	p := verifCatch(func() {
+		_, err = w.al.BeginDefragmentation(DefragmentationInfo{Flags: flags, Pool: pool}, ctx)
+	})
+	if p || err != nil {
+		return s
+	}
+	for pass := 0; pass < 3; pass++ {
+		var moves []defrag.DefragmentationMove[Allocation]
+		if verifCatch(func() { moves = ctx.BeginDefragPass() }) {
+			return s
+		}
+		s.moves = append(s.moves, len(moves))
+		for i := range moves {
+			s.moves = append(s.moves, moves[i].Size)
+			if moves[i].DstTmpAllocation != nil && moves[i].DstTmpAllocation.memory != nil {
+				s.moves = append(s.moves, moves[i].DstTmpAllocation.FindOffset())
+			}
+		}
+		finished := false
+		if verifCatch(func() { finished, err = ctx.EndDefragPass() }) || err != nil {
+			return s
+		}
+		if finished || len(moves) == 0 {
+			break
+		}
+	}
+	if verifCatch(func() { ctx.Finish(&s.stats) }) {
+		return s
+	}
+	s.ok = true
+	return s
+}
+
+func Verif_C15_VReuse(cfg int) {
+	flags := DefragmentationFlagAlgorithmFull
+	if (cfg/32)%2 == 1 {
+		flags = DefragmentationFlagAlgorithmFast
+	}
+	sizes := make([]int, 4)
+	for i := range sizes {
+		sizes[i] = verifNondetInt("size")
+		verifAssume(sizes[i] >= 1)
+		verifAssume(sizes[i] <= 120)
+	}
+	build := func() (*vWorld, *Pool, []*vAlloc) {
+		w := newWorld(15, cfg%32)
+		var pool *Pool
+		var err error
+		p := verifCatch(func() {
+			pool, _, err = w.al.CreatePool(PoolCreateInfo{MemoryTypeIndex: tHostCoh, BlockSize: 256, MaxBlockCount: 3})
+		})
+		verifAssume(!p)
+		verifAssume(err == nil)
+		var as []*vAlloc
+		for i := range sizes {
+			reqs := core1_0.MemoryRequirements{Size: sizes[i], Alignment: 1, MemoryTypeBits: 0xF}
+			a := &Allocation{}
+			_, err := w.al.AllocateMemory(&reqs, AllocationCreateInfo{Flags: AllocationCreateHostAccessRandom, Pool: pool}, a)
+			verifAssume(err == nil)
+			v := &vAlloc{a: a, reqSize: sizes[i], reqAlign: 1, typeBits: 2, pool: pool}
+			w.live = append(w.live, v)
+			as = append(as, v)
+		}
+		verifAssume(pool.blockList.BlockCount() >= 2)
+		return w, pool, as
+	}
+	wa, pa, aa := build()
+	wb, pb, ab := build()
+	// first run in both worlds after the same hole is made
+	wa.freeV(aa[0])
+	wb.freeV(ab[0])
+	reused := &DefragmentationContext{}
+	first := &DefragmentationContext{}
+	ra := wa.runAll(reused, pa, flags)
+	rb := wb.runAll(first, pb, flags)
+	verifAssume(ra.ok)
+	verifAssume(rb.ok)
+	// a second hole, then a second run: world A reuses its context, world B takes a fresh one
+	wa.freeV(aa[1])
+	wb.freeV(ab[1])
+	ra2 := wa.runAll(reused, pa, flags)
+	rb2 := wb.runAll(&DefragmentationContext{}, pb, flags)
+	same := ra2.ok == rb2.ok && len(ra2.moves) == len(rb2.moves)
+	if same {
+		for i := range ra2.moves {
+			same = verifAnd(same, ra2.moves[i] == rb2.moves[i])
+		}
+	}
+	verifAssert("C15/vam/reused-context-proposes-the-same-moves-as-a-fresh-one", same)
+	st := verifAnd(ra2.stats.BytesMoved == rb2.stats.BytesMoved, ra2.stats.AllocationsMoved == rb2.stats.AllocationsMoved)
+	verifAssert("C15/vam/reused-context-reports-the-statistics-of-its-own-run", st)
+	verifReach("end")
+}
